@@ -403,7 +403,9 @@ pub fn c11_strategy() -> BoxedStrategy<SchedConvCase> {
             let mut progs = vec![];
             for (i, f) in framings.iter().cloned().enumerate() {
                 let has_body = !matches!(f, Framing::None);
-                conv.reqs.push(gen::build_req(i as u32, if has_body { "POST".into() } else { "GET".into() }, String::new(), "HTTP/1.1", vec![Hdr::new("Host", "h")], f.clone(), None, 1, 0, None, false));
+                // every method is read ahead alike (CONNECT, HEAD, OPTIONS, extension tokens …)
+                let method = if has_body { ["POST", "PUT", "PATCH", "DELETE"][(rk as usize + i) % 4] } else { ["GET", "HEAD", "CONNECT", "OPTIONS", "TRACE", "DELETE", "PURGE", "get"][(rk as usize / 7 + i * 3) % 8] };
+                conv.reqs.push(gen::build_req(i as u32, method.into(), String::new(), "HTTP/1.1", vec![Hdr::new("Host", "h")], f.clone(), None, 1, 0, None, false));
                 let read = if is_streamed(&f) {
                     // every entry point of std::io::Read must release the successor at end-of-body
                     match rk % 7 {
@@ -524,4 +526,125 @@ pub fn mem_sched_verdict(prop: &str, case: &ConvCase, oracle: &dyn Fn(&ConvCase,
     }
     let exp = expect(case);
     oracle(case, &exp, &obs)
+}
+
+// ------------------------------------------------------------------------------------------
+// C12: the server closes its sending side once everything received has been answered — also
+// when the ending request's streamed body has not fully arrived and nobody reads it.  Needs the
+// connection task and the handler task to be different tasks (as in the real server).
+
+#[derive(Clone, Debug, Serialize, Deserialize)]
+pub struct WithheldCase {
+    pub case: ConvCase,
+    pub tape: Vec<u8>,
+}
+
+pub fn c12_withheld_strategy() -> BoxedStrategy<WithheldCase> {
+    (gen::c12_withheld_strategy(Just(Transport::Mem).boxed()), tape_strategy(120)).prop_map(|(case, tape)| WithheldCase { case, tape }).boxed()
+}
+
+pub fn run_c12_withheld(wc: &WithheldCase) -> vcore::runner::Verdict {
+    use vcore::runner::{fail, Good, Verdict};
+    let checks_done = Arc::new(AtomicBool::new(false));
+    let phase = Arc::new(AtomicUsize::new(0));
+    let viol: Arc<StdMutex<Option<(String, String)>>> = Arc::new(StdMutex::new(None));
+    let c = wc.case.clone();
+    let (cd, ph, vi) = (checks_done.clone(), phase.clone(), viol.clone());
+    let exec = run_exec(&wc.tape, checks_done, move || {
+        let clock = rt::begin_execution();
+        let rendered = render(&c.conv);
+        let bytes = rendered.with_nonce(b"00000000");
+        let cut = match c.script.first() {
+            Some(Step::Send { to, .. }) => (*to).min(bytes.len()),
+            _ => bytes.len(),
+        };
+        let exp = expect(&c);
+        let (client, conn) = rt::mem::pair();
+        client.send(&bytes[..cut]);
+        let sink: Arc<StdMutex<Vec<Delivered>>> = Arc::new(StdMutex::new(vec![]));
+        let queue: Arc<(rt::sync::Mutex<(std::collections::VecDeque<Request>, bool)>, rt::sync::Condvar)> = Arc::new((rt::sync::Mutex::new((Default::default(), false)), rt::sync::Condvar::new()));
+        let q2 = queue.clone();
+        let conn_task = shuttle::thread::spawn(move || {
+            let it = tiny_http::verif::client_connection(conn);
+            for rq in it {
+                let mut g = q2.0.lock().unwrap();
+                g.0.push_back(rq);
+                q2.1.notify_all();
+            }
+            let mut g = q2.0.lock().unwrap();
+            g.1 = true;
+            q2.1.notify_all();
+        });
+        let q3 = queue.clone();
+        let sink3 = sink.clone();
+        let case3 = c.clone();
+        let handler = shuttle::thread::spawn(move || loop {
+            let rq = {
+                let mut g = q3.0.lock().unwrap();
+                loop {
+                    if let Some(rq) = g.0.pop_front() {
+                        break Some(rq);
+                    }
+                    if g.1 {
+                        break None;
+                    }
+                    g = q3.1.wait(g).unwrap();
+                }
+            };
+            let Some(rq) = rq else { break };
+            let idx = interp::parse_id(rq.url(), "00000000").and_then(|id| case3.conv.reqs.iter().position(|r| r.id == id)).unwrap_or(0);
+            let prog = case3.prog(idx).clone();
+            interp::handle(rq, &prog, "00000000", 0, &sink3);
+        });
+        ph.store(1, Ordering::SeqCst);
+        // all responses, then the close — while the rest of the body is still withheld
+        let want = exp.msgs.len();
+        let heads: Vec<bool> = exp.msgs.iter().map(|m| m.head).collect();
+        let count = move |o: &[u8]| -> usize {
+            let mut pos = 0;
+            let mut n = 0;
+            while pos < o.len() {
+                match vcore::respparse::parse_one(&o[pos..], heads.get(n).copied().unwrap_or(false)) {
+                    Ok(m) => {
+                        pos += m.consumed;
+                        if m.status >= 200 {
+                            n += 1;
+                        }
+                    }
+                    Err(_) => break,
+                }
+            }
+            n
+        };
+        let c1 = count.clone();
+        client.wait_output(move |o, _| c1(o) >= want);
+        ph.store(2, Ordering::SeqCst);
+        client.wait_output(|_, closed| closed);
+        ph.store(3, Ordering::SeqCst);
+        let got = client.output();
+        if count(&got) != want {
+            *vi.lock().unwrap() = Some(("C12/withheld-body/responses".into(), format!("{} final responses, expected {}", count(&got), want)));
+        }
+        // now let the server finish: the rest of the body arrives, the client closes
+        client.send(&bytes[cut..]);
+        client.close_write();
+        let _ = handler.join();
+        let _ = conn_task.join();
+        cd.store(true, Ordering::SeqCst);
+        clock.finish();
+    });
+    match exec.end {
+        ExecEnd::Completed | ExecEnd::Deadlock { after_checks: true, .. } => {}
+        ExecEnd::Deadlock { after_checks: false, blocked } => {
+            let p = phase.load(Ordering::SeqCst);
+            let sig = if p == 2 { "C12/withheld-body/no-end-of-stream" } else if p <= 1 { "C12/withheld-body/response-missing" } else { "C12/withheld-body/stall" };
+            return fail(sig, format!("no runnable task in phase {} (1 = waiting for the responses, 2 = responses there, waiting for the server to close its sending side while the rest of the body is withheld): {}", p, blocked.chars().take(300).collect::<String>()));
+        }
+        ExecEnd::Panic(m) => return fail("C12/withheld-body/panic", m),
+        ExecEnd::StepBound => return Verdict::Inconclusive("step bound".into()),
+    }
+    if let Some((k, d)) = viol.lock().unwrap().clone() {
+        return fail(k, d);
+    }
+    Verdict::Pass(Good { nontrivial: Some(exec.stats.trace_hash), classes: vec![format!("framing:{}", framing_name(&wc.case.conv.reqs.last().unwrap().framing))], extra_evals: 0 })
 }
